@@ -28,9 +28,10 @@ from core.types import NONE, members
 from . import search as S
 from .c03_absint import Const, E, Interp, Opaque, Ref, Sc, Top, Tup, V
 from .common import guard_formula, stmt_of, types_of, where
-from .tables import DETECTOR, MATCHER, MODREQ, VIOLATIONS
+from .tables import DETECTOR, MATCHER, MODREQ, SEARCHES, VIOLATIONS
 
 MSG = "pytestarch.rule_assessment.error_message.message_generator"
+EVAL_ARCH = "pytestarch.eval_structure.evaluable_architecture"
 BOOL = ("b", "bool", ())
 ROLE_S = frozenset({"S"})
 ROLE_O = frozenset({"O"})
@@ -363,6 +364,132 @@ def run_r3_r4(repo: Repo, res: Result) -> None:
     res.floor("C03.R4", 4, n4)
 
 
+# --------------------------------------------------------------------------- R5
+
+
+def run_r5(repo: Repo, res: Result) -> None:
+    """The three graph queries of the evaluable: one independent search per key over the complete key set, stored under that key."""
+    T = types_of(repo)
+    proto = repo.cls(EVAL_ARCH, "EvaluableArchitecture")
+    queries = [m for m in proto.methods.values() if m.node.returns is not None and any(x[0] == "b" and x[1] == "dict" for x in members(T.ann(m.module, m.node.returns)))]
+    if len(queries) < 3:
+        raise AnalysisError(f"EvaluableArchitecture declares {len(queries)} dictionary-valued queries (expected the explicit and the two 'other' queries)")
+    search_funcs = [f for f in repo.module(SEARCHES).functions.values() if not f.name.startswith("_")]
+    impls: list[ClassInfo] = []
+    seen: set = set()
+    for c in repo.classes.values():
+        if c.fq == proto.fq or not repo.is_subclass(c, proto.fq):
+            continue
+        ms = [repo.lookup_method(c, q.name) for q in queries]
+        if any(m is None or m.cls is None or m.cls.fq == proto.fq or m.is_abstract for m in ms):
+            continue
+        sig = tuple(m.fq for m in ms)
+        if sig not in seen:
+            seen.add(sig)
+            impls.append(c)
+    if not impls:
+        raise AnalysisError("no implementation of the EvaluableArchitecture queries found")
+    n = 0
+    for cls in impls:
+        for q in queries:
+            impl = repo.lookup_method(cls, q.name)
+            calls: list[dict] = []
+
+            def make_intr(fn: FuncInfo, calls=calls):
+                def intr(it: Interp, args, kwargs, node, fr):
+                    allv = [*args, *kwargs.values()]
+                    key_scalars = [sc for a in allv for sh in a for sc in ([sh] if isinstance(sh, Sc) else [])]
+                    eids = frozenset().union(*[sc.eids for sc in key_scalars]) if key_scalars else frozenset()
+                    srcs = frozenset().union(*[sc.srcs for sc in key_scalars]) if key_scalars else frozenset()
+                    calls.append({"fn": fn, "args": allv, "node": node, "fr": fr, "live": frozenset(it.active)})
+                    el = Sc(srcs=srcs | {"search"}, eids=eids)
+                    return V(it.coll((id(node), fr.inv, "search"), it.site(fr, node), V(Tup((V(el), V(el)), "search result"))))
+
+                return intr
+
+            it = Interp(repo, {f.fq: make_intr(f) for f in search_funcs})
+            obj = it.instantiate(cls, lambda p, init: V(Opaque(p.arg)), "evaluable")
+            params = [p.arg for p in impl.params[1:]]
+            args = [V(it.coll(("input", p), "input", V(Sc(srcs=frozenset({p}))))) for p in params]
+            try:
+                out = it.call_method(obj, q.name, args, "query")
+            except RuntimeError as e:
+                raise AnalysisError(f"{impl.fq}: {e}") from e
+            head = f"{impl.relpath}::{cls.name}.{q.name}"
+            dicts = [sh for sh in out if isinstance(sh, Ref) and sh.kind == "dict"]
+            w = it.has_top(out)
+            if w or not dicts or not calls or len(dicts) != len([sh for sh in out if not (isinstance(sh, Const) and sh.value is None)]):
+                res.undecide("C03.R5", f"{head}::result", f"the abstract evaluation of the query lost track ({w or '; '.join(it.tops[:2]) or ('no search call reached' if not calls else 'result is not a dictionary')})", where(impl, impl.node))
+                continue
+            pset = set(params)
+            # (a) what every search receives
+            extra: list[str] = []
+            partial: list[str] = []
+            used: set = set()
+            for c in calls:
+                for a in c["args"]:
+                    if not a:
+                        extra.append(f"an argument without provenance in `{norm(c['node'], 80)}`")
+                        continue
+                    for sh in a:
+                        if isinstance(sh, Opaque) or (isinstance(sh, Const) and sh.value is None):
+                            continue
+                        if isinstance(sh, Sc):
+                            if sh.srcs and sh.srcs <= pset and sh.eids:
+                                used |= sh.srcs
+                                partial += [f"{mk[2]} [{mk[1]}]" for mk in sh.marks if mk[0] == "part"]
+                            else:
+                                extra.append(f"`{norm(c['node'], 80)}`: a scalar argument that is not an element of {sorted(pset)}")
+                        elif isinstance(sh, Ref) and sh.kind == "coll":
+                            els = it.elems(V(sh))
+                            scs = it.scalars(els)
+                            if scs and all(isinstance(x, Sc) for x in els) and all(sc.srcs and sc.srcs <= pset and not (sc.eids & c["live"]) for sc in scs):
+                                for sc in scs:
+                                    used |= sc.srcs
+                                    partial += [f"{mk[2]} [{mk[1]}]" for mk in sc.marks if mk[0] == "part"]
+                            else:
+                                extra.append(f"`{norm(c['node'], 80)}`: a collection that is not one of the complete module sets {sorted(pset)}")
+                        else:
+                            extra.append(f"`{norm(c['node'], 80)}`: an argument of kind {type(sh).__name__}{' (' + sh.why + ')' if isinstance(sh, Top) else ''}")
+            n += 1
+            ok = not extra
+            res.add("C03.R5", f"{head}::independent searches", ok, "each search receives only the graph, its own key and the whole opposite set" if ok else f"a search also receives {extra[0]}: state is shared between the searches of one batch, so a pair found for one key can be missing under another", where(impl, calls[0]["node"]) if calls else where(impl, impl.node), kind="flow")
+            # (b) keys: complete, derived from the parameters
+            key_marks: list[str] = list(partial)
+            bad_keys: list[str] = []
+            bad_vals: list[str] = []
+            for d in dicts:
+                for k, v in it.cell(d).entries:
+                    ks = it.scalars(k)
+                    if not ks or not all(sc.srcs and sc.srcs - {x for x in sc.srcs if str(x).startswith("fld:")} <= pset for sc in ks):
+                        bad_keys.append("a key that does not derive from the given modules")
+                    key_marks += [f"{mk[2]} [{mk[1]}]" for sc in ks for mk in sc.marks if mk[0] == "part"]
+                    keids = frozenset().union(*[sc.eids for sc in ks]) if ks else frozenset()
+                    ksrcs = frozenset().union(*[sc.srcs & pset for sc in ks]) if ks else frozenset()
+                    for sh in v:
+                        if not (isinstance(sh, Ref) and sh.kind == "coll" and isinstance(sh.key, tuple) and sh.key[-1] == "search"):
+                            bad_vals.append("the value stored for a key is not (only) the result of that key's own search")
+                            continue
+                        vs = it.scalars(it.elems(V(sh)))
+                        veids = frozenset().union(*[sc.eids for sc in vs]) if vs else frozenset()
+                        vsrcs = frozenset().union(*[sc.srcs & pset for sc in vs]) if vs else frozenset()
+                        if veids != keids or vsrcs != ksrcs or not keids:
+                            bad_vals.append("the search stored under a key was not run for (exactly) that key")
+                        key_marks += [f"{mk[2]} [{mk[1]}]" for sc in vs for mk in sc.marks if mk[0] == "part"]
+                        key_marks += [f"{mk[2]} [{mk[1]}]" for mk in it.cell(sh).part]
+            n += 1
+            missing = sorted(pset - used)
+            ok = not key_marks and not bad_keys and not missing
+            detail = f"one search per element of {params} (duplicates removed only)"
+            if not ok:
+                detail = (f"parameter(s) {missing} never reach a search" if missing else bad_keys[0] if bad_keys else f"not every given module gets a search / an entry of its own: {sorted(set(key_marks))[0]}") + ": a subject/object of the batch gets no judgement of its own"
+            res.add("C03.R5", f"{head}::all keys", ok, detail, where(impl, impl.node), kind="flow")
+            n += 1
+            ok = not bad_vals
+            res.add("C03.R5", f"{head}::result per key", ok, "the result of each search is stored under its own key" if ok else bad_vals[0], where(impl, impl.node), kind="flow")
+    res.floor("C03.R5", 9, n)
+
+
 def run(repo: Repo) -> Result:
     res = Result("C03")
     res.explanation = (
@@ -378,15 +505,5 @@ def run(repo: Repo) -> Result:
     run_r1(repo, res)
     run_r2(repo, res)
     run_r3_r4(repo, res)
-    # R5: the result stored for one (subject, object) key depends on that key only - otherwise a 'does not import' line can be
-    # produced for a subject whose import was credited to another key of the same batch
-    from . import c11
-
-    tmp = Result("C11")
-    c11.run_r4(repo, tmp)
-    for o in tmp.obligations:
-        res.add("C03.R5", o.construct, o.ok, o.detail, o.where, o.nontrivial, o.kind)
-    for u in tmp.undecided:
-        res.undecide("C03.R5", u["construct"], u["detail"], u.get("where", ""))
-    res.floor("C03.R5", 12, len(tmp.obligations))
+    run_r5(repo, res)
     return res
